@@ -19,7 +19,7 @@ func TestProp(t *testing.T) {
 	// the driver's address-space limit; with the limit the collector works harder instead.
 	debug.SetMemoryLimit(2 << 30)
 	debug.SetGCPercent(50)
-	r.Rule("a case is an operation q over products.graphqls (plain rig: gRPC datasource alone; fed rig: owning subgraph + gRPC subgraph) with a reformulation q'; non-trivial when an execution issues >= 2 RPCs or the walked response contains an abstract-typed object, a nested list, a field-resolver field or a @requires field; distinct by (rig, q, q')")
+	r.Rule("a case is an operation q over products.graphqls (plain rig: gRPC datasource alone; fed rig: owning subgraph + gRPC subgraph) with a reformulation q'; non-trivial when an execution issues >= 2 RPCs or the walked response contains an abstract-typed object, a nested list, a field-resolver field or a @requires field; distinct by (rig, q, q'); sequences: 2-6 requests on the long-lived engine, non-trivial when the same operation (>= 1 field-resolver level) is executed again with other variable values; distinct by the request list")
 	r.Assume("gqlparser decides validity of generated operations (operations the engine's validator rejects are dropped and counted)",
 		"grpctest.MockService is the service data; units it answers randomly are found by the per-run pre-pass and excluded from the consistency oracle",
 		"the in-process owning subgraph of the fed rig answers deterministically")
